@@ -71,6 +71,6 @@ package exterrors
 // WithTemporary wraps an error in a value whose Temporary() is the flag given (trusted: one composite literal; the
 // errors.As model of prelude/errors.spec finds it first on the chain).
 //@ func WithTemporary
-//@   prop C05
+//@   prop C05 C13
 //@   trusted
 //@   ensures result != nil && isTemp(result) == temporary
